@@ -19,7 +19,7 @@ type c05 struct{}
 func (c05) ID() string    { return "C05" }
 func (c05) Level() string { return "exploration" }
 func (c05) Rule() string {
-	return "target service decomposed into chains of 1..3 bases (4 thorough) x every assignment of link kinds {same file, other file same directory, other file in a sub-directory, other file in a sibling directory, back to the main file} x naming {distinct names, base named like the extending service where files differ} x file references {relative; all absolute} x own attributes of the most derived service {plain; tagged !override / !reset} x placement of each of 7 attributes (scalar, KEY=VALUE, plain sequence, wholesale command, build context, env_file, bind volume) on every non-empty subset of chain positions (one attribute varied at a time, and all together); every declaration-order permutation of same-file services and 8 uniform map-iteration rotations; sibling services sharing a base; all cyclic chains of length 1..4 over same/other file, and those of length 1..3 with the file of every edge spelled in 6 ways (relative, bare, through another directory, absolute, absolute not canonical; uniform and mixed) and same-file edges naming their own file; missing base service and missing file. Oracle: flattening reference (most derived wins, keys merge, sequences append base-first, paths anchored on the directory of the file that wrote them), no extends left, errors for cycles/missing. distinct = distinct (chain shape, placement) pairs"
+	return "target service decomposed into chains of 1..3 bases (4 thorough) x every assignment of link kinds {same file, other file same directory, other file in a sub-directory, other file in a sibling directory, back to the main file} x naming {distinct names, base named like the extending service where files differ} x file references {relative; all absolute} x own attributes of the most derived service {plain; tagged !override / !reset} x placement of each of 7 attributes (scalar, KEY=VALUE, plain sequence, wholesale command, build context, env_file, bind volume) on every non-empty subset of chain positions (one attribute varied at a time, and all together); every declaration-order permutation of same-file services and 8 uniform map-iteration rotations; sibling services sharing a base; four leaves sharing an intermediate service that extends a root (same / other file), each level adding 0..5 entries to one of 4 sequence attributes, under 8 rotations; all cyclic chains of length 1..4 over same/other file, and those of length 1..3 with the file of every edge spelled in 6 ways (relative, bare, through another directory, absolute, absolute not canonical; uniform and mixed) and same-file edges naming their own file; missing base service and missing file. Oracle: flattening reference (most derived wins, keys merge, sequences append base-first, paths anchored on the directory of the file that wrote them), no extends left, errors for cycles/missing. distinct = distinct (chain shape, placement) pairs"
 }
 func (c05) Assumptions() []string {
 	return []string{"reference flattening in props/c05.go follows the override rules of the statement for the 7 attribute kinds used"}
@@ -469,10 +469,109 @@ func (c05) Run(c *core.Ctx) {
 		}
 	}
 	c05siblings(c)
+	c05tree(c)
 	c05cycles(c)
 }
 
 // several services of the main file extend the same base (incl. one named like the base): each gets base + its own.
+// c05tree: leaves sharing an intermediate service that itself extends a root, every level adding entries to the same
+// sequences (r root entries, m more at the intermediate service, one or two per leaf): every leaf ends up with exactly
+// the entries of its own chain, whatever the order in which the services are resolved.
+func c05tree(c *core.Ctx) {
+	attrs := []struct {
+		name string
+		item func(tag string, i int) string
+		get  func(s types.ServiceConfig) []string
+	}{
+		{"cap_add", func(tag string, i int) string { return fmt.Sprintf("CAP_%s%d", strings.ToUpper(tag), i) }, func(s types.ServiceConfig) []string { return s.CapAdd }},
+		{"dns", func(tag string, i int) string { return fmt.Sprintf("10.%d.%d.1", len(tag)*7+int(tag[0])%50, i) }, func(s types.ServiceConfig) []string { return s.DNS }},
+		{"environment", func(tag string, i int) string { return fmt.Sprintf("%s_%d=v", strings.ToUpper(tag), i) }, func(s types.ServiceConfig) []string {
+			var out []string
+			for k, v := range s.Environment {
+				if v != nil {
+					out = append(out, k+"="+*v)
+				}
+			}
+			return out
+		}},
+		{"expose", func(tag string, i int) string { return fmt.Sprintf("%d", 1000*(int(tag[0])%9+1)+len(tag)*10+i) }, func(s types.ServiceConfig) []string { return s.Expose }},
+	}
+	leaves := []string{"alpha", "beta", "gamma", "zeta"}
+	for _, a := range attrs {
+		for r := 1; r <= 5; r++ {
+			for m := 0; m <= 2; m++ {
+				for own := 1; own <= 2; own++ {
+					for _, cross := range []bool{false, true} {
+						a, r, m, own, cross := a, r, m, own, cross
+						id := fmt.Sprintf("tree/%s/r%d/m%d/own%d/cross%v", a.name, r, m, own, cross)
+						c.Do(id, func() core.Outcome {
+							list := func(tag string, n int) string {
+								if n == 0 {
+									return ""
+								}
+								var items []string
+								for i := 0; i < n; i++ {
+									items = append(items, "\""+a.item(tag, i)+"\"")
+								}
+								return "    " + a.name + ": [" + strings.Join(items, ", ") + "]\n"
+							}
+							want := func(leaf string) []string {
+								var w []string
+								for i := 0; i < r; i++ {
+									w = append(w, a.item("root", i))
+								}
+								for i := 0; i < m; i++ {
+									w = append(w, a.item("mid", i))
+								}
+								for i := 0; i < own; i++ {
+									w = append(w, a.item(leaf, i))
+								}
+								sort.Strings(w)
+								return w
+							}
+							rootDoc := "  root:\n    image: common\n" + list("root", r)
+							rootRef := "{service: root}"
+							files := map[string]string{}
+							if cross {
+								rootRef = "{file: ./common.yaml, service: root}"
+								files["common.yaml"] = "services:\n" + rootDoc
+								rootDoc = ""
+							}
+							var sb strings.Builder
+							sb.WriteString("services:\n")
+							for _, l := range leaves {
+								fmt.Fprintf(&sb, "  %s:\n    extends: {service: mid}\n%s", l, list(l, own))
+							}
+							fmt.Fprintf(&sb, "  mid:\n    extends: %s\n%s", rootRef, list("mid", m))
+							sb.WriteString(rootDoc)
+							files["compose.yaml"] = sb.String()
+							s := &Scn{Files: files, Main: []string{"compose.yaml"}}
+							root := s.Materialise()
+							for k := uintptr(0); k < 8; k++ {
+								mapctl.SetUniform(k)
+								p, err := s.LoadAt(root)
+								mapctl.SetUniform(0)
+								if err != nil {
+									return core.Outcome{Class: "err", Sample: files, Viol: &core.Violation{Key: "tree:rejected", Msg: fmt.Sprintf("%s (rotation %d): %v", id, k, err)}}
+								}
+								for _, l := range leaves {
+									got := append([]string{}, a.get(p.Services[l])...)
+									sort.Strings(got)
+									if w := want(l); strings.Join(got, " ") != strings.Join(w, " ") {
+										return core.Outcome{Class: "diff", Sample: files, Viol: &core.Violation{Key: "tree:wrong-inheritance:" + a.name,
+											Msg: fmt.Sprintf("%s (rotation %d): service %s has %s %v, expected %v", id, k, l, a.name, got, w)}}
+									}
+								}
+							}
+							return core.Outcome{Class: id, Sample: files}
+						})
+					}
+				}
+			}
+		}
+	}
+}
+
 func c05siblings(c *core.Ctx) {
 	for _, baseName := range []string{"base", "web"} {
 		for _, cross := range []bool{false, true} {
